@@ -357,6 +357,8 @@ def check_source(ctx, c):
             c["engine"], c["space"], c["mode"], src, c["count"], si_, ns_), key="source:no-effect")
 
 
+RULE = RULE + " " + ('Since seeded round 4 the apply_reaction facet continues the history: one flag of the cell is edited in place (set_chemostat or item assignment on the map, on the system or on a copy of it) after the first call and the reaction is applied again, against the edited map; the source facet also flags every species of the source cell (a whole-cell reservoir) in diffusion mode.')
+
 FACETS = [
     Facet("kinetics", check_kinetics, strategy=strat_kinetics, examples=(960, 8000), shards=(16, 16)),
     Facet("engines", check_engines, strategy=strat_engines, examples=(1200, 30000), shards=(8, 16), setup=sim.setup_plain),
